@@ -26,6 +26,7 @@ def concretize(rec):
     """a generic record (uninterpreted step function, opaque value sort) is searched under the concrete reading its registration names (`cex=`): same source, same contract text"""
     cx = rec.get("cex")
     if not cx: return rec
+    if set(cx) <= {"axioms"}: r2 = dict(rec); r2["axioms"] = list(cx["axioms"]); return r2
     base = rec["specs"]
     def specs():
         d = base() if callable(base) else dict(base or {}); d.update(cx["specs"]()); return d
@@ -33,7 +34,7 @@ def concretize(rec):
     native = dict(cx.get("native", {}))
     for k, v in list(native.items()):
         if v == "step": native[k] = cx["step"]
-    r2["native_types"] = native
+    r2["native_types"] = native; r2["axioms"] = list(cx.get("axioms", []))
     return r2
 
 
@@ -41,6 +42,7 @@ def runnable(rec):
     if "#" in rec["qualname"]: return False
     nt = rec.get("native_types", {})
     for name, t in rec["inst"].items():
+        if isinstance(t, dict): return False            # object parameters (self, slice): no stand-alone native call
         if t.startswith(("step:", "bin:")) and name not in nt: return False
         if ":opaque:" in t or t == "opaque": return False
     return True
@@ -51,6 +53,12 @@ def mk_engine(rec, repo, bmc=False):
     eng = Engine(os.path.join(repo, rec["file"]), rec["qualname"], rec["contract"], specs, callees=rec["callees"], prune=True); eng.inst_name = rec["inst_name"]; eng.bmc = bmc
     if rec["setup"]: rec["setup"](eng)
     return eng
+
+
+def add_axioms(eng, st, rec):
+    """defining equations of specification symbols that this function's own contract takes from a callee's contract (the callee proves its result against them; the caller's
+    bounded execution needs them so that a model's interpretation of the symbols is the intended one)"""
+    for ax in rec.get("axioms", []) or []: st.pc.append(eng.spec(st, ax))
 
 
 def has_quant(t, memo=None):
@@ -130,8 +138,13 @@ def shapes(rec, repo, cap=400, per_size=40, budget=60.0):
 def nice(eng, st, inst):
     """input atoms (z3 terms of the caller-supplied data) + constraints that keep a model's numbers exactly representable"""
     atoms = []; cons = []
+    # the integer null (-2^63) is offered only where an integer is DATA (values, accumulators, the null marker itself): in keys, counts, weights, times and sizes it would only
+    # produce 64-bit overflow, which the encoding (mathematical integers, assumption A-int64) does not model
+    DATA = ("values", "arr", "arr_list", "null_value", "next_val", "x", "y", "target", "initial_value")
     def add(z, elem, dtype, where):
         atoms.append((z, elem, where))
+        if elem == "int" and not (where[0] in DATA or where[0].startswith("cur_")):
+            rng = INT_RANGES.get(dtype); cons.append(z3.And(z >= max(-3, rng[0] if rng else -3), z <= 9)); return
         if elem == "float": cons.append(z3.Or(F.is_NaN(z), z3.And(z3.IsInt(F.val(z) * 4), F.val(z) >= -8, F.val(z) <= 8)))
         elif elem == "int":
             lo, hi = -3, 9
@@ -224,6 +237,44 @@ def predicted(eng, ob, m):
     return enc(ob.rv)
 
 
+def result_constraints(eng, ob, returns, tol=1e-9):
+    """z3 constraints saying 'the value the engine computes on this path IS the value the real function returned' (None when the shapes cannot even match).
+    Used to ask whether the real result is AMONG the results the encoding allows (uninitialised memory, callee contracts and uninterpreted symbols leave some outputs open)."""
+    st = ob.st; cons = []
+    def scalar(z, kind, x):
+        if kind == "bool": cons.append(z == z3.BoolVal(bool(x))); return True
+        if kind == "int":
+            if isinstance(x, (str, float)) and not (isinstance(x, float) and float(x).is_integer()): return False
+            cons.append(z == z3.IntVal(int(x))); return True
+        if kind == "float":
+            if x == "nan": cons.append(F.is_NaN(z)); return True
+            if isinstance(x, str): return False          # +-inf is not modelled
+            fr = fractions.Fraction(float(x)).limit_denominator(1 << 50); eps = fractions.Fraction(max(1.0, abs(float(x))) * tol).limit_denominator(1 << 60)
+            cons.append(z3.And(F.is_Fin(z), F.val(z) >= z3.RealVal(f"{(fr - eps).numerator}/{(fr - eps).denominator}"), F.val(z) <= z3.RealVal(f"{(fr + eps).numerator}/{(fr + eps).denominator}"))); return True
+        return False
+    def walk(v, x):
+        if v.kind == "none": return x is None
+        if v.kind in ("int", "float", "bool"): return scalar(v.z, v.kind, x)
+        if v.kind == "tuple": return isinstance(x, dict) and "tuple" in x and len(x["tuple"]) == len(v.items) and all(walk(a, b) for a, b in zip(v.items, x["tuple"]))
+        if v.kind == "arr":
+            if not (isinstance(x, dict) and "array" in x): return False
+            saved = eng.in_spec; eng.in_spec = True
+            try:
+                if v.ndim == 2 and v.row is None:
+                    n0, n1 = st.heap.shape[v.ref]; n0 = v.vlen if v.vlen is not None else n0; rows = x["array"]
+                    cons.append(n0 == len(rows))
+                    for i, row in enumerate(rows):
+                        cons.append(n1 == len(row))
+                        for j, y in enumerate(row):
+                            if not scalar(z3.Select(st.heap.arr[v.ref], i, (n1 - 1 - j) if v.rev else j), v.elem, y): return False
+                    return True
+                cons.append(eng.arr_len(st, v) == len(x["array"]))
+                return all(scalar(eng.arr_read(st, v, z3.IntVal(i), 0, check=False), v.elem, y) for i, y in enumerate(x["array"]))
+            finally: eng.in_spec = saved
+        return False
+    return cons if walk(ob.rv, returns) else None
+
+
 def same(a, b, tol=1e-9):
     if isinstance(a, dict) and isinstance(b, dict):
         ka = "tuple" if "tuple" in a else ("array" if "array" in a else "list"); kb = "tuple" if "tuple" in b else ("array" if "array" in b else "list")
@@ -265,7 +316,7 @@ def search(rec, repo, budget=120.0, want_kinds=KINDS, only_obligations=None, ver
             if time.time() - t0 > budget: break
             rep["tried_shapes"] += 1
             try:
-                eng = mk_engine(rec, repo, bmc=True); st = eng.init_state(conc)
+                eng = mk_engine(rec, repo, bmc=True); st = eng.init_state(conc); add_axioms(eng, st, rec)
                 atoms, cons = nice(eng, st, conc)
                 obls = eng.verify_from(st)
             except (Unsupported, Stale) as ex:
@@ -310,29 +361,34 @@ def search(rec, repo, budget=120.0, want_kinds=KINDS, only_obligations=None, ver
 
 
 def xcheck(rec, repo, budget=40.0, max_paths=24):
-    """translation validation of the ENCODING on the unchanged source: for every path of the bounded execution (small shapes) one solver-chosen input is run through the real
-    compiled function, and what it returns / raises must equal what the engine predicts for that path.  A disagreement means PyVC's model of numba's semantics is wrong for
-    that construct (or the callee contract it used is) - a checker fault, never a finding about the repository."""
+    """translation validation of the ENCODING on the unchanged source: for every path of the bounded execution (small shapes) one solver-chosen input - on which every safety
+    obligation of the function holds, i.e. inside defined behaviour - is run through the real compiled function, and what it returns / raises must be AMONG the results the
+    engine's semantics allows for that input on that path (outputs the encoding leaves open - uninitialised memory, a callee known only by its contract - are not compared
+    with a particular model).  A disagreement means PyVC's model of numba's semantics is wrong for some construct - a checker fault, never a finding about the repository."""
     from . import registry
-    rec = concretize(rec); fname = registry.fname_of(rec); t0 = time.time()
+    extra_fn = rec.get("extra_hyps"); rec = concretize(rec); fname = registry.fname_of(rec); t0 = time.time()
     rep = {"function": fname, "paths_executed": 0, "agree": 0, "disagree": [], "skipped": 0}
     if not runnable(rec): rep["status"] = "not-runnable"; return rep
-    uses_exp = "__exp__" in (rec["specs"]() if callable(rec["specs"]) else (rec["specs"] or {}))
-    E.EXACT_DIV = True; seen_paths = set()
+    if "__exp__" in (rec["specs"]() if callable(rec["specs"]) else (rec["specs"] or {})):
+        rep["status"] = "not-comparable"; rep["why"] = "exp / log are uninterpreted symbols in the encoding: a model's numbers are not the real ones"; return rep
+    E.EXACT_DIV = True; seen_paths = set(); SAFETY = ("bounds", "negindex", "overflow", "pre", "shape", "alloc", "lossy", "exact", "assert", "divzero", "raises")
     try:
         for conc in shapes(rec, repo, budget=budget):
             if time.time() - t0 > budget or rep["paths_executed"] >= max_paths: break
             try:
-                eng = mk_engine(rec, repo, bmc=True); st = eng.init_state(conc); atoms, cons = nice(eng, st, conc); obls = eng.verify_from(st)
+                eng = mk_engine(rec, repo, bmc=True); st = eng.init_state(conc); add_axioms(eng, st, rec); atoms, cons = nice(eng, st, conc); obls = eng.verify_from(st)
             except (Unsupported, Stale): rep["skipped"] += 1; continue
             if eng.pre_sat == "unsat": continue
+            extra = rec["extra_hyps"](eng) if rec.get("extra_hyps") else []
             for ob in obls:
                 if ob.outcome not in ("return", "raise") and ob.kind not in ("assert", "divzero"): continue
                 path = (json.dumps(conc, sort_keys=True), ob.name.split("@", 1)[1].rsplit("#", 1)[0], ob.kind if ob.outcome is None else ob.outcome)
                 if path in seen_paths: continue
                 seen_paths.add(path)
                 if rep["paths_executed"] >= max_paths or time.time() - t0 > budget: break
-                s = z3.Solver(); s.set(timeout=5000); s.add(*ob.hyps); s.add(*cons)
+                # inside defined behaviour: wherever another obligation's path prefix is taken, that obligation holds (the one under test excepted when it is the failing assert / division)
+                safe = [z3.Implies(z3.And(*o2.hyps), o2.goal) for o2 in obls if o2 is not ob and o2.kind in SAFETY and not (ob.outcome == "raise" and o2.kind == "raises")]
+                s = z3.Solver(); s.set(timeout=5000); s.add(*ob.hyps); s.add(*extra); s.add(*cons); s.add(*safe)
                 if ob.outcome is None: s.add(z3.Not(ob.goal))         # an assert / division that fails on this path: the real code must raise
                 if s.check() != z3.sat: continue
                 m = s.model()
@@ -342,13 +398,19 @@ def xcheck(rec, repo, budget=40.0, max_paths=24):
                 if "error" in nat: rep["skipped"] += 1; continue
                 rep["paths_executed"] += 1
                 if ob.outcome == "return":
-                    if uses_exp: rep["skipped"] += 1; rep["paths_executed"] -= 1; continue       # exp / log are uninterpreted: a model's numbers are not the real ones
-                    try: pred = predicted(eng, ob, m)
-                    except Exception as ex: rep["skipped"] += 1; rep["paths_executed"] -= 1; continue
-                    ok = nat["raised"] is None and same(pred, nat["returns"])
+                    ok = False; pred = None
+                    if nat["raised"] is None:
+                        rc = result_constraints(eng, ob, nat["returns"])
+                        if rc is not None:
+                            s2 = z3.Solver(); s2.set(timeout=8000); s2.add(*ob.hyps); s2.add(*extra); s2.add(*safe)
+                            for z, elem, where in atoms: s2.add(z == zconst(zval(m, z, elem), elem))
+                            s2.add(*rc); ok = s2.check() == z3.sat
+                    if not ok:
+                        try: pred = predicted(eng, ob, m)
+                        except Exception as ex: pred = f"(unavailable: {ex})"
                 else: pred = "raises"; ok = nat["raised"] is not None
                 if ok: rep["agree"] += 1
-                else: rep["disagree"].append({"shape": conc, "args": args, "engine_predicts": pred, "real_code": nat, "path": path[1]})
+                else: rep["disagree"].append({"shape": conc, "args": args, "one_admissible_engine_result": pred, "real_code": nat, "path": path[1]})
     finally: E.EXACT_DIV = False
     rep["status"] = "ok" if not rep["disagree"] else "DISAGREE"; rep["wall_s"] = round(time.time() - t0, 1)
     return rep
@@ -369,7 +431,7 @@ def recheck(rec, repo, cx):
     function is run on it, and the input still violates the contract iff some obligation of the path it takes is unsatisfiable with the input fixed (and reality == prediction)"""
     rec = concretize(rec); E.EXACT_DIV = True
     try:
-        conc = cx["shape"]; eng = mk_engine(rec, repo, bmc=True); st = eng.init_state(conc); atoms, cons = nice(eng, st, conc); obls = eng.verify_from(st)
+        conc = cx["shape"]; eng = mk_engine(rec, repo, bmc=True); st = eng.init_state(conc); add_axioms(eng, st, rec); atoms, cons = nice(eng, st, conc); obls = eng.verify_from(st)
         given = {}
         for a in cx["args"]:
             v = a["value"]
